@@ -61,6 +61,21 @@ theorem updateCore_installed_needs (env : Env) (c : Config) (base) (d : Disk) (s
           · cases h
           · simp [installStage] at h
 
+theorem updateCore_installed_available (env : Env) (c : Config) (base) (d : Disk) (sc : UpdateScript)
+    (h : (updateCore env c base d sc).2.1 = .installed) : (sc.resp.map (·.available)).getD false = true := by
+  unfold updateCore at h
+  simp only [] at h
+  cases hr : sc.resp with
+  | none => simp [hr] at h
+  | some r =>
+    simp only [hr] at h
+    cases ha : r.available with
+    | true => simp [ha]
+    | false =>
+      exfalso
+      unfold afterCheck at h
+      simp [ha] at h
+
 theorem updateCore_check_failed_acts (env : Env) (c : Config) (base) (d : Disk) (sc : UpdateScript) (hr : sc.resp = none) :
     (updateCore env c base d sc).2.1 = .errCheck ∧ (updateCore env c base d sc).2.2.2 = false := by
   unfold updateCore; simp [hr]
@@ -87,7 +102,7 @@ theorem C06_requests_hold (env : Env) (libs : List (String × Bytes)) (ops : Lis
         rw [firstFail_none_iff]
         intro ck hck
         simp only [List.mem_cons, List.mem_nil_iff, or_false] at hck
-        rcases hck with rfl | rfl
+        rcases hck with rfl | rfl | rfl
         · cases hr : sc.resp with
           | some r => rfl
           | none =>
@@ -99,6 +114,11 @@ theorem C06_requests_hold (env : Env) (libs : List (String × Bytes)) (ops : Lis
           | true =>
             have := updateCore_installed_needs env c (w.base c) w.disk sc (of_decide_eq_true hi)
             simp [this.1, this.2]
+        · cases hi : decide ((updateCore env c (w.base c) w.disk sc).2.1 = UpdateOut.installed) with
+          | false => rfl
+          | true =>
+            have := updateCore_installed_available env c (w.base c) w.disk sc (of_decide_eq_true hi)
+            simp [this]
     | check chan resp =>
       cases hc : w.config with
       | none => rfl
